@@ -127,7 +127,8 @@ static void one_case(const vf::Args& a, uint64_t idx) {
     // derivative variant = derivative of the returned value (long double instantiation as FD engine)
     {
       // keep the stencil away from the pole and, for Bergstrom-Boyce, from the switching point 0.84136
-      L hstep = std::min(L(1e-4), (1 - L(ya)) / 8) * std::max(L(ya), L(1e-3));
+      // ... and from 0, where approximations built on |y| have a discontinuous second derivative
+      L hstep = std::min(std::min(L(1e-4), (1 - L(ya)) / 8) * std::max(L(ya), L(1e-3)), L(ya) / 8);
       const L ysw = 0.84136L;
       bool ok = true;
       if (K == 4 && std::fabs(L(ya) - ysw) < 4 * hstep) ok = false;
